@@ -15,6 +15,7 @@ import (
 type specVal struct {
 	term string
 	typ  types.Type
+	lazy bool // term is the address of a nested struct value that has not been loaded yet
 }
 
 type SpecEnv struct {
@@ -37,7 +38,7 @@ var tString = types.Typ[types.String]
 func (e *SpecEnv) fail(format string, a ...interface{}) specVal {
 	msg := fmt.Sprintf(format, a...)
 	e.x.unsupp("spec: %s", msg)
-	return specVal{e.x.vc.freshConst("specerr", "Bool"), tBool}
+	return specVal{term: e.x.vc.freshConst("specerr", "Bool"), typ: tBool}
 }
 
 func (e *SpecEnv) sub() *SpecEnv {
@@ -63,21 +64,25 @@ func exprString(e ast.Expr) string {
 }
 
 func (x *Exec) evalSpec(env *SpecEnv, e ast.Expr) specVal {
+	return x.force(env, x.evalSpecLazy(env, e))
+}
+
+func (x *Exec) evalSpecLazy(env *SpecEnv, e ast.Expr) specVal {
 	vc := x.vc
 	switch t := e.(type) {
 	case *ast.ParenExpr:
-		return x.evalSpec(env, t.X)
+		return x.evalSpecLazy(env, t.X)
 	case *ast.BasicLit:
 		switch t.Kind {
 		case token.INT:
 			v := constant.MakeFromLiteral(t.Value, token.INT, 0)
-			return specVal{vc.constTerm(v, tInt), tInt}
+			return specVal{term: vc.constTerm(v, tInt), typ: tInt}
 		case token.STRING:
 			s, _ := strconv.Unquote(t.Value)
-			return specVal{vc.strLit(s), tString}
+			return specVal{term: vc.strLit(s), typ: tString}
 		case token.CHAR:
 			v := constant.MakeFromLiteral(t.Value, token.CHAR, 0)
-			return specVal{vc.constTerm(constant.ToInt(v), tInt), tInt}
+			return specVal{term: vc.constTerm(constant.ToInt(v), tInt), typ: tInt}
 		}
 	case *ast.Ident:
 		return x.evalIdent(env, t)
@@ -89,14 +94,14 @@ func (x *Exec) evalSpec(env *SpecEnv, e ast.Expr) specVal {
 		if !ok {
 			return env.fail("deref of non-pointer %s", exprString(t.X))
 		}
-		return specVal{x.load(env.st, pt.Elem(), v.term), pt.Elem()}
+		return specVal{term: x.load(env.st, pt.Elem(), v.term), typ: pt.Elem()}
 	case *ast.UnaryExpr:
 		v := x.evalSpec(env, t.X)
 		switch t.Op {
 		case token.NOT:
-			return specVal{not(v.term), tBool}
+			return specVal{term: not(v.term), typ: tBool}
 		case token.SUB:
-			return specVal{fmt.Sprintf("(- %s)", v.term), v.typ}
+			return specVal{term: fmt.Sprintf("(- %s)", v.term), typ: v.typ}
 		}
 	case *ast.BinaryExpr:
 		return x.evalBinary(env, t)
@@ -113,14 +118,14 @@ func (x *Exec) evalSpec(env *SpecEnv, e ast.Expr) specVal {
 			if t.High != nil {
 				hi = x.evalSpec(env, t.High).term
 			}
-			return specVal{fmt.Sprintf("(mk_slice (sl_arr %s) (+ (sl_off %s) %s) (- %s %s) (- (sl_cap %s) %s))", v.term, v.term, lo, hi, lo, v.term, lo), v.typ}
+			return specVal{term: fmt.Sprintf("(mk_slice (sl_arr %s) (+ (sl_off %s) %s) (- %s %s) (- (sl_cap %s) %s))", v.term, v.term, lo, hi, lo, v.term, lo), typ: v.typ}
 		}
 		if vc.sortOf(v.typ) == "Str" {
 			hi := fmt.Sprintf("(strlen %s)", v.term)
 			if t.High != nil {
 				hi = x.evalSpec(env, t.High).term
 			}
-			return specVal{fmt.Sprintf("(substr %s %s %s)", v.term, lo, hi), v.typ}
+			return specVal{term: fmt.Sprintf("(substr %s %s %s)", v.term, lo, hi), typ: v.typ}
 		}
 	case *ast.CallExpr:
 		return x.evalCall(env, t)
@@ -128,7 +133,7 @@ func (x *Exec) evalSpec(env *SpecEnv, e ast.Expr) specVal {
 		if len(t.Elts) == 0 {
 			ty := x.resolveTypeExpr(t.Type, env.pkg)
 			if ty != nil {
-				return specVal{vc.zero(ty), ty}
+				return specVal{term: vc.zero(ty), typ: ty}
 			}
 		}
 	}
@@ -138,11 +143,11 @@ func (x *Exec) evalSpec(env *SpecEnv, e ast.Expr) specVal {
 func (x *Exec) evalIdent(env *SpecEnv, id *ast.Ident) specVal {
 	switch id.Name {
 	case "true":
-		return specVal{"true", tBool}
+		return specVal{term: "true", typ: tBool}
 	case "false":
-		return specVal{"false", tBool}
+		return specVal{term: "false", typ: tBool}
 	case "nil":
-		return specVal{"pnull", untypedNil}
+		return specVal{term: "pnull", typ: untypedNil}
 	}
 	if strings.HasPrefix(id.Name, "G_") {
 		name := id.Name[2:]
@@ -151,7 +156,7 @@ func (x *Exec) evalIdent(env *SpecEnv, id *ast.Ident) specVal {
 			if env.inOld && env.old != nil {
 				st = env.old
 			}
-			return specVal{x.ghostGet(st, name), x.resolveTypeExpr(g.Type, nil)}
+			return specVal{term: x.ghostGet(st, name), typ: x.resolveTypeExpr(g.Type, nil)}
 		}
 	}
 	if v, ok := env.names[id.Name]; ok {
@@ -174,7 +179,7 @@ func (x *Exec) evalIdent(env *SpecEnv, id *ast.Ident) specVal {
 	}
 	if obj := types.Universe.Lookup(id.Name); obj != nil {
 		if c, ok := obj.(*types.Const); ok {
-			return specVal{x.vc.constTerm(c.Val(), c.Type()), c.Type()}
+			return specVal{term: x.vc.constTerm(c.Val(), c.Type()), typ: c.Type()}
 		}
 	}
 	return env.fail("unknown identifier %s", id.Name)
@@ -188,7 +193,7 @@ func (x *Exec) localByName(env *SpecEnv, fr *Frame, name string) (specVal, bool)
 		// parameters: their entry values
 		for i, p := range fr.fn.Params {
 			if p.Name() == name && i < len(fr.params) {
-				return specVal{fr.params[i], p.Type()}, true
+				return specVal{term: fr.params[i], typ: p.Type()}, true
 			}
 		}
 	}
@@ -214,7 +219,7 @@ func (x *Exec) localByName(env *SpecEnv, fr *Frame, name string) (specVal, bool)
 	if found == nil {
 		for i, p := range fr.fn.Params {
 			if p.Name() == name && i < len(fr.params) {
-				return specVal{fr.params[i], p.Type()}, true
+				return specVal{term: fr.params[i], typ: p.Type()}, true
 			}
 		}
 		for i, fv := range fr.fn.FreeVars {
@@ -222,7 +227,7 @@ func (x *Exec) localByName(env *SpecEnv, fr *Frame, name string) (specVal, bool)
 				_ = i
 				p := x.val(fr, st, fv)
 				et := deref(fv.Type())
-				return specVal{x.load(st, et, p), et}, true
+				return specVal{term: x.load(st, et, p), typ: et}, true
 			}
 		}
 		return specVal{}, false
@@ -232,7 +237,7 @@ func (x *Exec) localByName(env *SpecEnv, fr *Frame, name string) (specVal, bool)
 		if _, executed2 := fr.vals[found]; !executed2 {
 			for i, p := range fr.fn.Params {
 				if p.Name() == name && i < len(fr.params) {
-					return specVal{fr.params[i], p.Type()}, true
+					return specVal{term: fr.params[i], typ: p.Type()}, true
 				}
 			}
 		}
@@ -242,19 +247,19 @@ func (x *Exec) localByName(env *SpecEnv, fr *Frame, name string) (specVal, bool)
 			// not yet initialised in this state (e.g. old state before the spill): parameter?
 			for i, p := range fr.fn.Params {
 				if p.Name() == name && i < len(fr.params) {
-					return specVal{fr.params[i], p.Type()}, true
+					return specVal{term: fr.params[i], typ: p.Type()}, true
 				}
 			}
 		}
-		return specVal{x.cellRead(st, la), et}, true
+		return specVal{term: x.cellRead(st, la), typ: et}, true
 	}
 	if p, ok := fr.vals[found]; ok {
-		return specVal{x.load(st, et, p), et}, true
+		return specVal{term: x.load(st, et, p), typ: et}, true
 	}
 	// allocation not executed yet on this path (e.g. a loop invariant evaluated at the loop head
 	// that mentions a variable declared in the body): unconstrained
 	if !found.Heap {
-		return specVal{x.vc.zero(et), et}, true
+		return specVal{term: x.vc.zero(et), typ: et}, true
 	}
 	return specVal{}, false
 }
@@ -266,7 +271,7 @@ func (x *Exec) pkgMember(env *SpecEnv, pkg *types.Package, name string) (specVal
 	}
 	switch o := obj.(type) {
 	case *types.Const:
-		return specVal{x.vc.constTerm(o.Val(), o.Type()), o.Type()}, true
+		return specVal{term: x.vc.constTerm(o.Val(), o.Type()), typ: o.Type()}, true
 	case *types.Var:
 		sp := x.p.SSA.Package(pkg)
 		if sp == nil {
@@ -278,13 +283,13 @@ func (x *Exec) pkgMember(env *SpecEnv, pkg *types.Package, name string) (specVal
 		}
 		et := deref(g.Type())
 		if x.p.globalImmutable(g) {
-			return specVal{x.globalConst(g), et}, true
+			return specVal{term: x.globalConst(g), typ: et}, true
 		}
 		st := env.st
 		if env.inOld && env.old != nil {
 			st = env.old
 		}
-		return specVal{x.load(st, et, fmt.Sprintf("(pglob %d)", x.vc.globID(g.String()))), et}, true
+		return specVal{term: x.load(st, et, fmt.Sprintf("(pglob %d)", x.vc.globID(g.String()))), typ: et}, true
 	}
 	return specVal{}, false
 }
@@ -338,7 +343,7 @@ func (x *Exec) evalSelector(env *SpecEnv, s *ast.SelectorExpr) specVal {
 			}
 		}
 	}
-	v := x.evalSpec(env, s.X)
+	v := x.evalSpecLazy(env, s.X)
 	return x.selectField(env, v, s.Sel.Name)
 }
 
@@ -359,25 +364,48 @@ func (x *Exec) selectField(env *SpecEnv, v specVal, name string) specVal {
 		return env.fail("no field %s in %s", name, v.typ)
 	}
 	cur := v
+	implicitPtr := v.lazy
 	for _, idx := range path {
 		if pt, ok := cur.typ.Underlying().(*types.Pointer); ok {
 			stt := pt.Elem()
 			ft := stt.Underlying().(*types.Struct).Field(idx).Type()
-			cur = specVal{x.loadField(st, stt, idx, cur.term), ft}
+			if _, isStruct := ft.Underlying().(*types.Struct); isStruct {
+				// stay at the address of the nested struct; load lazily
+				cur = specVal{term: fmt.Sprintf("(pfld %s %d)", cur.term, x.vc.fieldID(stt, idx)), typ: types.NewPointer(ft)}
+				implicitPtr = true
+				continue
+			}
+			cur = specVal{term: x.loadField(st, stt, idx, cur.term), typ: ft}
+			implicitPtr = false
 		} else {
 			ft := cur.typ.Underlying().(*types.Struct).Field(idx).Type()
-			cur = specVal{x.vc.fieldOf(cur.typ, idx, cur.term), ft}
+			cur = specVal{term: x.vc.fieldOf(cur.typ, idx, cur.term), typ: ft}
+			implicitPtr = false
 		}
 	}
+	cur.lazy = implicitPtr
 	return cur
+}
+
+// force loads a lazily addressed nested struct value.
+func (x *Exec) force(env *SpecEnv, v specVal) specVal {
+	if !v.lazy {
+		return v
+	}
+	st := env.st
+	if env.inOld && env.old != nil {
+		st = env.old
+	}
+	et := deref(v.typ)
+	return specVal{term: x.loadStruct(st, et, v.term), typ: et}
 }
 
 func (x *Exec) coerceNil(a, b specVal) (specVal, specVal) {
 	if a.typ == untypedNil && b.typ != untypedNil {
-		a = specVal{x.vc.zero(b.typ), b.typ}
+		a = specVal{term: x.vc.zero(b.typ), typ: b.typ}
 	}
 	if b.typ == untypedNil && a.typ != untypedNil {
-		b = specVal{x.vc.zero(a.typ), a.typ}
+		b = specVal{term: x.vc.zero(a.typ), typ: a.typ}
 	}
 	return a, b
 }
@@ -385,9 +413,9 @@ func (x *Exec) coerceNil(a, b specVal) (specVal, specVal) {
 func (x *Exec) evalBinary(env *SpecEnv, b *ast.BinaryExpr) specVal {
 	switch b.Op {
 	case token.LAND:
-		return specVal{and(x.evalBool(env, b.X), x.evalBool(env, b.Y)), tBool}
+		return specVal{term: and(x.evalBool(env, b.X), x.evalBool(env, b.Y)), typ: tBool}
 	case token.LOR:
-		return specVal{or(x.evalBool(env, b.X), x.evalBool(env, b.Y)), tBool}
+		return specVal{term: or(x.evalBool(env, b.X), x.evalBool(env, b.Y)), typ: tBool}
 	}
 	l := x.evalSpec(env, b.X)
 	r := x.evalSpec(env, b.Y)
@@ -395,44 +423,44 @@ func (x *Exec) evalBinary(env *SpecEnv, b *ast.BinaryExpr) specVal {
 	srt := x.vc.sortOf(l.typ)
 	switch b.Op {
 	case token.EQL:
-		return specVal{eq(l.term, r.term), tBool}
+		return specVal{term: eq(l.term, r.term), typ: tBool}
 	case token.NEQ:
-		return specVal{not(eq(l.term, r.term)), tBool}
+		return specVal{term: not(eq(l.term, r.term)), typ: tBool}
 	}
 	if srt == "Int" {
 		switch b.Op {
 		case token.ADD:
-			return specVal{fmt.Sprintf("(+ %s %s)", l.term, r.term), l.typ}
+			return specVal{term: fmt.Sprintf("(+ %s %s)", l.term, r.term), typ: l.typ}
 		case token.SUB:
-			return specVal{fmt.Sprintf("(- %s %s)", l.term, r.term), l.typ}
+			return specVal{term: fmt.Sprintf("(- %s %s)", l.term, r.term), typ: l.typ}
 		case token.MUL:
-			return specVal{fmt.Sprintf("(* %s %s)", l.term, r.term), l.typ}
+			return specVal{term: fmt.Sprintf("(* %s %s)", l.term, r.term), typ: l.typ}
 		case token.QUO:
-			return specVal{goDiv(l.term, r.term), l.typ}
+			return specVal{term: goDiv(l.term, r.term), typ: l.typ}
 		case token.REM:
-			return specVal{fmt.Sprintf("(- %s (* %s %s))", l.term, r.term, goDiv(l.term, r.term)), l.typ}
+			return specVal{term: fmt.Sprintf("(- %s (* %s %s))", l.term, r.term, goDiv(l.term, r.term)), typ: l.typ}
 		case token.LSS:
-			return specVal{fmt.Sprintf("(< %s %s)", l.term, r.term), tBool}
+			return specVal{term: fmt.Sprintf("(< %s %s)", l.term, r.term), typ: tBool}
 		case token.LEQ:
-			return specVal{fmt.Sprintf("(<= %s %s)", l.term, r.term), tBool}
+			return specVal{term: fmt.Sprintf("(<= %s %s)", l.term, r.term), typ: tBool}
 		case token.GTR:
-			return specVal{fmt.Sprintf("(> %s %s)", l.term, r.term), tBool}
+			return specVal{term: fmt.Sprintf("(> %s %s)", l.term, r.term), typ: tBool}
 		case token.GEQ:
-			return specVal{fmt.Sprintf("(>= %s %s)", l.term, r.term), tBool}
+			return specVal{term: fmt.Sprintf("(>= %s %s)", l.term, r.term), typ: tBool}
 		}
 	}
 	if srt == "Str" {
 		switch b.Op {
 		case token.ADD:
-			return specVal{fmt.Sprintf("(concat %s %s)", l.term, r.term), l.typ}
+			return specVal{term: fmt.Sprintf("(concat %s %s)", l.term, r.term), typ: l.typ}
 		case token.LSS:
-			return specVal{fmt.Sprintf("(str_lt %s %s)", l.term, r.term), tBool}
+			return specVal{term: fmt.Sprintf("(str_lt %s %s)", l.term, r.term), typ: tBool}
 		case token.GTR:
-			return specVal{fmt.Sprintf("(str_lt %s %s)", r.term, l.term), tBool}
+			return specVal{term: fmt.Sprintf("(str_lt %s %s)", r.term, l.term), typ: tBool}
 		case token.LEQ:
-			return specVal{fmt.Sprintf("(not (str_lt %s %s))", r.term, l.term), tBool}
+			return specVal{term: fmt.Sprintf("(not (str_lt %s %s))", r.term, l.term), typ: tBool}
 		case token.GEQ:
-			return specVal{fmt.Sprintf("(not (str_lt %s %s))", l.term, r.term), tBool}
+			return specVal{term: fmt.Sprintf("(not (str_lt %s %s))", l.term, r.term), typ: tBool}
 		}
 	}
 	return env.fail("unsupported binary %s on %s", b.Op, l.typ)
@@ -448,16 +476,16 @@ func (x *Exec) evalIndex(env *SpecEnv, ie *ast.IndexExpr) specVal {
 	switch u := v.typ.Underlying().(type) {
 	case *types.Slice:
 		p := fmt.Sprintf("(pelem (sl_arr %s) (+ (sl_off %s) %s))", v.term, v.term, i.term)
-		return specVal{x.load(st, u.Elem(), p), u.Elem()}
+		return specVal{term: x.load(st, u.Elem(), p), typ: u.Elem()}
 	case *types.Map:
 		_, _, hm := x.mapHas(st, v.typ)
 		_, _, vm := x.mapVal(st, v.typ)
 		has := fmt.Sprintf("(select (select %s %s) %s)", hm, v.term, i.term)
-		return specVal{ite(has, fmt.Sprintf("(select (select %s %s) %s)", vm, v.term, i.term), x.vc.zero(u.Elem())), u.Elem()}
+		return specVal{term: ite(has, fmt.Sprintf("(select (select %s %s) %s)", vm, v.term, i.term), x.vc.zero(u.Elem())), typ: u.Elem()}
 	case *types.Basic:
-		return specVal{fmt.Sprintf("(str_at %s %s)", v.term, i.term), types.Typ[types.Byte]}
+		return specVal{term: fmt.Sprintf("(str_at %s %s)", v.term, i.term), typ: types.Typ[types.Byte]}
 	case *types.Array:
-		return specVal{fmt.Sprintf("(select %s %s)", v.term, i.term), u.Elem()}
+		return specVal{term: fmt.Sprintf("(select %s %s)", v.term, i.term), typ: u.Elem()}
 	}
 	return env.fail("cannot index %s", v.typ)
 }
@@ -470,9 +498,9 @@ func (x *Exec) evalCall(env *SpecEnv, c *ast.CallExpr) specVal {
 			v := x.evalSpec(env, c.Args[0])
 			switch vc.sortOf(v.typ) {
 			case "Slice":
-				return specVal{fmt.Sprintf("(sl_%s %s)", id.Name, v.term), tInt}
+				return specVal{term: fmt.Sprintf("(sl_%s %s)", id.Name, v.term), typ: tInt}
 			case "Str":
-				return specVal{fmt.Sprintf("(strlen %s)", v.term), tInt}
+				return specVal{term: fmt.Sprintf("(strlen %s)", v.term), typ: tInt}
 			}
 			if _, ok := v.typ.Underlying().(*types.Map); ok {
 				st := env.st
@@ -480,7 +508,7 @@ func (x *Exec) evalCall(env *SpecEnv, c *ast.CallExpr) specVal {
 					st = env.old
 				}
 				_, _, lm := x.mapLen(st, v.typ)
-				return specVal{fmt.Sprintf("(select %s %s)", lm, v.term), tInt}
+				return specVal{term: fmt.Sprintf("(select %s %s)", lm, v.term), typ: tInt}
 			}
 			return env.fail("len of %s", v.typ)
 		case "old":
@@ -491,9 +519,9 @@ func (x *Exec) evalCall(env *SpecEnv, c *ast.CallExpr) specVal {
 			}
 			return x.evalSpec(&sub, c.Args[0])
 		case "G_impl":
-			return specVal{implies(x.evalBool(env, c.Args[0]), x.evalBool(env, c.Args[1])), tBool}
+			return specVal{term: implies(x.evalBool(env, c.Args[0]), x.evalBool(env, c.Args[1])), typ: tBool}
 		case "G_iff":
-			return specVal{eq(x.evalBool(env, c.Args[0]), x.evalBool(env, c.Args[1])), tBool}
+			return specVal{term: eq(x.evalBool(env, c.Args[0]), x.evalBool(env, c.Args[1])), typ: tBool}
 		case "forall", "exists":
 			// forall(i, lo, hi, body)  — i ranges over lo <= i < hi ; or forall(i T, body) via forallT(i, T, body)
 			if len(c.Args) == 4 {
@@ -505,13 +533,13 @@ func (x *Exec) evalCall(env *SpecEnv, c *ast.CallExpr) specVal {
 				hi := x.evalSpec(env, c.Args[2])
 				sub := env.sub()
 				q := vc.fresh("q_" + iv.Name)
-				sub.names[iv.Name] = specVal{q, tInt}
+				sub.names[iv.Name] = specVal{term: q, typ: tInt}
 				body := x.evalBool(sub, c.Args[3])
 				rng := fmt.Sprintf("(and (<= %s %s) (< %s %s))", lo.term, q, q, hi.term)
 				if id.Name == "forall" {
-					return specVal{fmt.Sprintf("(forall ((%s Int)) (=> %s %s))", q, rng, body), tBool}
+					return specVal{term: fmt.Sprintf("(forall ((%s Int)) (=> %s %s))", q, rng, body), typ: tBool}
 				}
-				return specVal{fmt.Sprintf("(exists ((%s Int)) (and %s %s))", q, rng, body), tBool}
+				return specVal{term: fmt.Sprintf("(exists ((%s Int)) (and %s %s))", q, rng, body), typ: tBool}
 			}
 			if len(c.Args) == 3 {
 				iv, ok := c.Args[0].(*ast.Ident)
@@ -524,25 +552,25 @@ func (x *Exec) evalCall(env *SpecEnv, c *ast.CallExpr) specVal {
 				}
 				sub := env.sub()
 				q := vc.fresh("q_" + iv.Name)
-				sub.names[iv.Name] = specVal{q, ty}
+				sub.names[iv.Name] = specVal{term: q, typ: ty}
 				body := x.evalBool(sub, c.Args[2])
 				kw := "forall"
 				if id.Name == "exists" {
 					kw = "exists"
 				}
-				return specVal{fmt.Sprintf("(%s ((%s %s)) %s)", kw, q, vc.sortOf(ty), body), tBool}
+				return specVal{term: fmt.Sprintf("(%s ((%s %s)) %s)", kw, q, vc.sortOf(ty), body), typ: tBool}
 			}
 			return env.fail("quantifier needs (i, lo, hi, body) or (x, T, body)")
 		case "min", "max":
 			a := x.evalSpec(env, c.Args[0])
 			b := x.evalSpec(env, c.Args[1])
-			return specVal{fmt.Sprintf("(i%s %s %s)", id.Name, a.term, b.term), a.typ}
+			return specVal{term: fmt.Sprintf("(i%s %s %s)", id.Name, a.term, b.term), typ: a.typ}
 		case "ite":
 			cnd := x.evalBool(env, c.Args[0])
 			a := x.evalSpec(env, c.Args[1])
 			b := x.evalSpec(env, c.Args[2])
 			a, b = x.coerceNil(a, b)
-			return specVal{ite(cnd, a.term, b.term), a.typ}
+			return specVal{term: ite(cnd, a.term, b.term), typ: a.typ}
 		case "G_has":
 			m := x.evalSpec(env, c.Args[0])
 			k := x.evalSpec(env, c.Args[1])
@@ -551,11 +579,11 @@ func (x *Exec) evalCall(env *SpecEnv, c *ast.CallExpr) specVal {
 				st = env.old
 			}
 			_, _, hm := x.mapHas(st, m.typ)
-			return specVal{fmt.Sprintf("(select (select %s %s) %s)", hm, m.term, k.term), tBool}
+			return specVal{term: fmt.Sprintf("(select (select %s %s) %s)", hm, m.term, k.term), typ: tBool}
 		case "G_sameslice":
 			a := x.evalSpec(env, c.Args[0])
 			b := x.evalSpec(env, c.Args[1])
-			return specVal{eq(a.term, b.term), tBool}
+			return specVal{term: eq(a.term, b.term), typ: tBool}
 		case "G_str":
 			// $str(b): the content of a byte slice as an abstract string
 			b := x.evalSpec(env, c.Args[0])
@@ -563,10 +591,10 @@ func (x *Exec) evalCall(env *SpecEnv, c *ast.CallExpr) specVal {
 			if env.inOld && env.old != nil {
 				st = env.old
 			}
-			return specVal{x.strOfBytes(st, b.term), tString}
+			return specVal{term: x.strOfBytes(st, b.term), typ: tString}
 		case "G_isnil":
 			v := x.evalSpec(env, c.Args[0])
-			return specVal{eq(v.term, vc.zero(v.typ)), tBool}
+			return specVal{term: eq(v.term, vc.zero(v.typ)), typ: tBool}
 		case "G_dyntype":
 			// $dyntype(v, T): interface value v holds dynamic type T
 			v := x.evalSpec(env, c.Args[0])
@@ -574,14 +602,14 @@ func (x *Exec) evalCall(env *SpecEnv, c *ast.CallExpr) specVal {
 			if ty == nil {
 				return env.fail("bad type %s", exprString(c.Args[1]))
 			}
-			return specVal{fmt.Sprintf("(and ((_ is ibox) %s) (= (itag %s) %d))", v.term, v.term, vc.typeTag(ty)), tBool}
+			return specVal{term: fmt.Sprintf("(and ((_ is ibox) %s) (= (itag %s) %d))", v.term, v.term, vc.typeTag(ty)), typ: tBool}
 		case "G_unbox":
 			v := x.evalSpec(env, c.Args[0])
 			ty := x.resolveTypeExpr(c.Args[1], env.pkg)
 			if ty == nil {
 				return env.fail("bad type %s", exprString(c.Args[1]))
 			}
-			return specVal{x.unboxIface(ty, v.term), ty}
+			return specVal{term: x.unboxIface(ty, v.term), typ: ty}
 		}
 		if strings.HasPrefix(id.Name, "G_") {
 			if u, ok := x.db.UFuns[id.Name[2:]]; ok {
@@ -595,17 +623,17 @@ func (x *Exec) evalCall(env *SpecEnv, c *ast.CallExpr) specVal {
 		v := x.evalSpec(env, c.Args[0])
 		from, to := vc.sortOf(v.typ), vc.sortOf(ty)
 		if v.typ == untypedNil {
-			return specVal{vc.zero(ty), ty}
+			return specVal{term: vc.zero(ty), typ: ty}
 		}
 		if from == to {
-			return specVal{v.term, ty}
+			return specVal{term: v.term, typ: ty}
 		}
 		if from == "Slice" && to == "Str" {
 			st := env.st
 			if env.inOld && env.old != nil {
 				st = env.old
 			}
-			return specVal{x.strOfBytes(st, v.term), ty}
+			return specVal{term: x.strOfBytes(st, v.term), typ: ty}
 		}
 		return env.fail("unsupported conversion %s -> %s", v.typ, ty)
 	}
@@ -630,7 +658,7 @@ func (x *Exec) applyUFun(env *SpecEnv, u *UFun, args []ast.Expr) specVal {
 		if i < len(args) {
 			a := x.evalSpec(env, args[i])
 			if a.typ == untypedNil {
-				a = specVal{x.vc.zero(pt), pt}
+				a = specVal{term: x.vc.zero(pt), typ: pt}
 			}
 			terms = append(terms, a.term)
 		}
@@ -641,9 +669,9 @@ func (x *Exec) applyUFun(env *SpecEnv, u *UFun, args []ast.Expr) specVal {
 	}
 	f := x.vc.ufun("uf_"+sanitize(u.Name), sorts, x.vc.sortOf(rt))
 	if len(terms) == 0 {
-		return specVal{f, rt}
+		return specVal{term: f, typ: rt}
 	}
-	return specVal{fmt.Sprintf("(%s %s)", f, strings.Join(terms, " ")), rt}
+	return specVal{term: fmt.Sprintf("(%s %s)", f, strings.Join(terms, " ")), typ: rt}
 }
 
 // evalRealCall executes a call to a function of the program inside a spec expression (used by
@@ -691,13 +719,13 @@ func (x *Exec) evalRealCall(env *SpecEnv, c *ast.CallExpr) specVal {
 					stt := pt.Elem()
 					ft := stt.Underlying().(*types.Struct).Field(idx).Type()
 					if _, isPtr := ft.Underlying().(*types.Pointer); isPtr {
-						recv = specVal{x.loadField(env.st, stt, idx, recv.term), ft}
+						recv = specVal{term: x.loadField(env.st, stt, idx, recv.term), typ: ft}
 					} else {
-						recv = specVal{fmt.Sprintf("(pfld %s %d)", recv.term, x.vc.fieldID(stt, idx)), types.NewPointer(ft)}
+						recv = specVal{term: fmt.Sprintf("(pfld %s %d)", recv.term, x.vc.fieldID(stt, idx)), typ: types.NewPointer(ft)}
 					}
 				} else {
 					ft := recv.typ.Underlying().(*types.Struct).Field(idx).Type()
-					recv = specVal{x.vc.fieldOf(recv.typ, idx, recv.term), ft}
+					recv = specVal{term: x.vc.fieldOf(recv.typ, idx, recv.term), typ: ft}
 				}
 			}
 			_ = indirect
@@ -713,10 +741,10 @@ func (x *Exec) evalRealCall(env *SpecEnv, c *ast.CallExpr) specVal {
 				// materialise the value in a fresh object
 				p := x.newObj()
 				x.store(env.st, recv.typ, p, recv.term)
-				recv = specVal{p, types.NewPointer(recv.typ)}
+				recv = specVal{term: p, typ: types.NewPointer(recv.typ)}
 			} else if !wantPtr && havePtr {
 				et := deref(recv.typ)
-				recv = specVal{x.load(env.st, et, recv.term), et}
+				recv = specVal{term: x.load(env.st, et, recv.term), typ: et}
 			}
 			args = append(args, recv)
 		}
@@ -740,10 +768,10 @@ func (x *Exec) evalRealCall(env *SpecEnv, c *ast.CallExpr) specVal {
 		if pi < len(fn.Params) {
 			pt := fn.Params[pi].Type()
 			if v.typ == untypedNil {
-				v = specVal{x.vc.zero(pt), pt}
+				v = specVal{term: x.vc.zero(pt), typ: pt}
 			} else if _, isIface := pt.Underlying().(*types.Interface); isIface {
 				if _, already := v.typ.Underlying().(*types.Interface); !already {
-					v = specVal{x.makeIface(env.st, v.typ, v.term), pt}
+					v = specVal{term: x.makeIface(env.st, v.typ, v.term), typ: pt}
 				}
 			}
 		}
@@ -771,15 +799,15 @@ func (x *Exec) evalRealCall(env *SpecEnv, c *ast.CallExpr) specVal {
 	}
 	rts := x.resultTypes(fn.Signature)
 	if len(rts) == 0 {
-		return specVal{"true", tBool}
+		return specVal{term: "true", typ: tBool}
 	}
 	if len(rts) > 1 {
 		// tuple: expose as first result, others through names result1..n
 		for i := range rts {
-			env.names[fmt.Sprintf("%s_%d", fn.Name(), i)] = specVal{res[i], rts[i]}
+			env.names[fmt.Sprintf("%s_%d", fn.Name(), i)] = specVal{term: res[i], typ: rts[i]}
 		}
 	}
-	return specVal{res[0], rts[0]}
+	return specVal{term: res[0], typ: rts[0]}
 }
 
 // callByContractSpec: contract application for a call made from a spec expression.
@@ -788,7 +816,7 @@ func (x *Exec) callByContractSpec(fr *Frame, st *State, fc *FuncContract, fn *ss
 	env.pkg = x.pkgOfContract(fc.Pkg, fn)
 	for i, p := range fn.Params {
 		if i < len(args) {
-			env.names[p.Name()] = specVal{args[i], argTypes[i]}
+			env.names[p.Name()] = specVal{term: args[i], typ: argTypes[i]}
 		}
 	}
 	pre := st.clone()
@@ -804,9 +832,9 @@ func (x *Exec) callByContractSpec(fr *Frame, st *State, fc *FuncContract, fn *ss
 		if i < len(fc.Results) {
 			name = fc.Results[i]
 		}
-		env.names[name] = specVal{res[i], rt}
+		env.names[name] = specVal{term: res[i], typ: rt}
 		if len(rts) == 1 {
-			env.names["result"] = specVal{res[i], rt}
+			env.names["result"] = specVal{term: res[i], typ: rt}
 		}
 	}
 	for _, e := range fc.Ensures {
